@@ -49,7 +49,7 @@ def run(ctx):
     if allow:
         a = srv.run_impl(ctx, allow)
         b = srv.run_impl(ctx, [(c[0], c[1], None, c[3]) for c in allow])
-        bad = [k for k in range(len(allow)) if srv.observe(a[k], 'replies') != srv.observe(b[k], 'replies') or srv.observe(a[k], 'calls') != srv.observe(b[k], 'calls')]
+        bad = [k for k in range(len(allow)) if srv.observe(a[k], 'replies') != srv.observe(b[k], 'replies') or srv.expand_runs(srv.observe(a[k], 'calls')[0]) != srv.expand_runs(srv.observe(b[k], 'calls')[0])]
         ctx.oblige('allow-all-policy-equals-no-authorization', not bad, f'{len(bad)} of {len(allow)}')
         if bad:
             c = allow[bad[0]]
